@@ -14,7 +14,16 @@ WANT = [
     r"^raster\.codes$", r"^raster\.profile\.indices$", r"^raster\.(ravel|unravel)$", r"^raster\.offsets_of_moves\.queen$",
     r"^cache\.(has|get|get_storage|lookup\.cached|lookup\.nocache)$", r"^accessors\.",
     r"^snapshot\.save\.", r"^spl\.", r"^basin\.uf\.", r"^basin\.kruskal", r"^pool\.blocks_ctor\.size$", r"^pool\.blocks_start$",
+    # basin graph: every table access of one neighbour visit / one node / the root pass of connect_basins (e.g. outlets()[basin of a masked node])
+    r"^basin\.connect\.(visit\.lowest|root\.node|root\.loop|switch)$", r"^basin\.sinks\.basic\.(step|loop)$",
+    # widths of the receiver / donor tables are fixed at construction from the operator sequence: these functional clauses ARE the
+    # memory-safety precondition of the routers (C05.width), see FUNCTIONAL below
+    r"^opseq\.(ctor|impl_width|update_routes)$",
+    r"^trimesh\.set_neighbors\.step$", r"^raster\.indices\.nb8$", r"^raster\.profile\.", r"^router\.seq\.loop\.nb2$", r"^router\.par\.whole\.nb2$",
+    r"^mrouter\.loop\.nb2$", r"^sweeps\.basins\.labels$", r"^sweeps\.accumulate\.loop\.eq\.w1$",
 ]
+# groups whose FUNCTIONAL obligations count under C08 as well (they state a size / width that later accesses rely on)
+FUNCTIONAL = r"^opseq\.(ctor|impl_width)$"
 
 
 def _collect():
@@ -34,7 +43,7 @@ def _collect():
 GROUPS = {"C08": _collect()}
 PROPS = {
     "C08": dict(
-        level="other", safety_only=True,
+        level="other", safety_only=True, safety_functional=[FUNCTIONAL],
         explanation="Per-function claim: every listed group enforces one extracted function's contract with all of cbmc's memory-safety and "
                     "arithmetic checks on, for all inputs satisfying the function's precondition (unbounded sizes unless the group says bounded). "
                     "It is NOT a proof about every public operation: the glue between the public API and these functions, xtensor itself, the "
